@@ -382,6 +382,18 @@ func vALTSGen(r *vRand, tier string, idx int) ([]int64, [][]int64) {
 		}
 		return []int64{fs}, append(ops, []int64{4, 1, 1, 6}, []int64{4, 1, 3, 5}, []int64{4, 1, 5, 7}, []int64{4, 1, 7, 4}, []int64{5},
 			[]int64{2, 4096}, []int64{2, 4096}, []int64{2, 4096}, []int64{2, 4096}, []int64{2, 4096}, []int64{2, 4096}, []int64{2, 4096}, []int64{2, 4096}, []int64{2, 4096})
+	case 3, 4:
+		// read buffers just below / at / above the plaintext of the next record (the
+		// decrypt-into-caller's-buffer fast path and its tag-size margin): one record per round
+		fs := int64(4096)
+		n := int64(100)
+		if idx == 4 {
+			fs, n = 65536, 65536-24
+		}
+		for k := int64(-18); k <= 26; k++ {
+			ops = append(ops, []int64{1, n}, []int64{3, 1 << 21}, []int64{2, n - k}, []int64{2, 1 << 20})
+		}
+		return []int64{fs}, ops
 	}
 	fs := fsChoices[r.Intn(len(fsChoices))]
 	if r.Chance(20) {
@@ -439,8 +451,14 @@ func vALTSGen(r *vRand, tier string, idx int) ([]int64, [][]int64) {
 			ops = append(ops, []int64{1, n})
 		case r.Chance(35):
 			ops = append(ops, []int64{3, r.PickI64(1, 3, 4, 7, 8, 23, 24, 25, int64(r.Intn(5000)), int64(r.Intn(100000)), lim+24, lim+23, 1<<21)})
+		case r.Chance(25):
+			// a fresh record read with a buffer within the tag/overhead margin of its plaintext
+			n := r.PickI64(lim, int64(30+r.Intn(3000)), lim-int64(r.Intn(30)))
+			ops = append(ops, []int64{1, n}, []int64{3, 1 << 21}, []int64{2, 1 << 20}, []int64{2, 1 << 20}, []int64{2, 1 << 20},
+				[]int64{1, n}, []int64{3, 1 << 21}, []int64{2, n - int64(r.Intn(27)) + 1}, []int64{2, 1 << 20})
+			nrec += 2
 		default:
-			ops = append(ops, []int64{2, r.PickI64(0, 1, 15, 16, 17, lim, lim+16, lim+15, 1<<20, int64(r.Intn(3000)), int64(r.Intn(100000)))})
+			ops = append(ops, []int64{2, r.PickI64(0, 1, 15, 16, 17, lim, lim+16, lim+15, lim-1, lim-8, lim-9, lim-24, 1<<20, int64(r.Intn(3000)), int64(r.Intn(100000)))})
 		}
 	}
 	if tamperAt < 0 && r.Chance(60) {
